@@ -271,15 +271,24 @@ async def _run(sc: dict, holder: dict | None = None) -> dict:
     def do_event(e: dict) -> None:
         ev = e["ev"]
         if ev == "conn_lost":
-            connected["up"] = False
-            R.rec(e="ConnLost")
-            loop.call_soon(proto.connection_lost, None)  # as the real transports do
+            # the event is recorded at its linearisation point - in the very handle that tells the protocol, not when
+            # the transport schedules it: a caller that calls in between still meets a connected protocol
+            def _lost() -> None:
+                connected["up"] = False
+                R.rec(e="ConnLost")
+                proto.connection_lost(None)
+
+            loop.call_soon(_lost)  # as the real transports do
         elif ev == "conn_made":
-            connected["up"] = True
-            R.rec(e="ConnMade")
             proto._wait_connection_made = loop.create_future() if proto._wait_connection_made.done() else proto._wait_connection_made
             proto._active_hgi = None
-            loop.call_soon(lambda: proto.connection_made(tr, ramses=True))  # as PortTransport does
+
+            def _made() -> None:
+                connected["up"] = True
+                R.rec(e="ConnMade")
+                proto.connection_made(tr, ramses=True)
+
+            loop.call_soon(_made)  # as PortTransport does
         elif ev == "pause":
             R.rec(e="Pause")
             proto.pause_writing()
